@@ -93,7 +93,8 @@ def get_pattern_context(pattern: str, index: int) -> tuple[str, int, int]:
             indent = ''
             offset = -1
             col = index - last + 1
-        elif last <= index < m.end(0):
+        elif last <= index < m.end(0) or (not len(m.group(0)) and index == m.end(0)):
+            # The offset is on this line; the very end of the pattern belongs to the last line
             indent = '--> '
             offset = (-1 if index > m.start(0) else 0) + 3
             col = index - last + 1
